@@ -262,6 +262,26 @@ Theorem C13_one_drainer_in_order : forall d ops,
 Proof. exact one_drainer_in_order. Qed.
 Print Assumptions C13_one_drainer_in_order.
 
+(* ---- Stop while exchanges are still dumping (DisableDumpAll with a body still being read):
+        every interleaving of DumpTo, drain steps, Start and Stop delivers in program order, and once
+        the dumper is stopped or not draining nothing is left queued - no write is lost, none can
+        block ---- *)
+Theorem C13_stop_loses_nothing : forall async ops,
+  let st := run_sops async ops in
+  s_out st ++ tasks_of (s_q st) = sdumped ops /\
+  ((s_running st = false \/ s_stopped st = true) -> s_out st = sdumped ops).
+Proof. exact stop_loses_nothing. Qed.
+Print Assumptions C13_stop_loses_nothing.
+
+(* ---- the request's own dump buffer across retries: after the reset that precedes the last
+        attempt it holds exactly that attempt's dump, whatever the earlier attempts left ---- *)
+Theorem C13_buffer_holds_last_attempt : forall before last,
+  forallb is_write last = true ->
+  run_bops (before ++ BReset :: last) =
+  flat_map (fun op => match op with BWrite p => p | BReset => [] end) last.
+Proof. exact buffer_holds_last_attempt. Qed.
+Print Assumptions C13_buffer_holds_last_attempt.
+
 (* ---- an HTTP/2 response header block that is never completed or is rejected: the lines of the
         fields that were decoded, at the response-header writer, no closing CRLF ---- *)
 Theorem C13_h2_partial_block_content : forall i o w ds fs,
@@ -302,6 +322,16 @@ Theorem C13_keep_pointer_setter_refuted :
   run_rops_keep 2%N [RSet o; REnable] = run_rops 2%N [RSet o; REnable].
 Proof. exact rops_keep_refuted. Qed.
 Print Assumptions C13_keep_pointer_setter_refuted.
+
+(* Stop as it was before fix 417df38 (and with d-m3's sticky running flag): a write dumped between
+   Stop and the drainer's exit is queued behind the mark and never written *)
+Theorem C13_old_stop_loses_writes :
+  let t := (7%N, bs "rest of the body") in
+  let ops := [SStart; SStop; SDump t; SDrain; SDrain; SDrain] in
+  s_out (run_sops_old true ops) = [] /\ s_running (run_sops_old true ops) = false /\
+  sdumped ops = [t] /\ s_out (run_sops true ops) = [t].
+Proof. exact old_stop_loses_writes. Qed.
+Print Assumptions C13_old_stop_loses_writes.
 
 (* two drain goroutines on one queue (c-m1) reorder *)
 Theorem C13_two_drainers_reorder :
